@@ -375,6 +375,7 @@ def replay (conjv : K → K) (half : K) (lines : List String) : IO Unit := do
   let mut idx := 0
   let mut lastDump : List String := []
   let mut lastBulkOk := false
+  let mut justPrepared := false
   let mut mustBeUnchanged : Option String := none
   -- the implementation's own index table, as dumped by the last `index` command (for the C18 oracle)
   let mut implTbl : List (String × Nat × Nat) := []
@@ -509,6 +510,11 @@ def replay (conjv : K → K) (half : K) (lines : List String) : IO Unit := do
             IO.println s!"PROPFAIL[C13] cmd#{idx} after a bulk computation {t.getD 3 "?"} of {t.getD 2 "?"} listed elements cannot be evaluated"
             tally := tally.pfail
         | _ => pure ()
+      -- a bulk computation that directly follows a bulk preparation must succeed (everything listed was just prepared)
+      if cmd.take 2 == ["tpc", "computeall"] && justPrepared && obs != ["o ok"] then
+        IO.println s!"PROPFAIL[C13] cmd#{idx} {" ".intercalate cmd} :: the bulk computation directly after a bulk preparation fails with {obs.getD 0 "?"}"
+        tally := tally.pfail
+      justPrepared := cmd.take 2 == ["tpc", "prepareall"] && obs == ["o ok"]
       if cmd.take 2 == ["tpc", "computeall"] then lastBulkOk := obs == ["o ok"]
       else if cmd.take 2 != ["tpc", "evalall"] && cmd.take 2 != ["tpc", "list"] && cmd.take 2 != ["tpc", "get"] then lastBulkOk := false
       let obs := obs'
